@@ -77,6 +77,18 @@ def _native_calls(prog, wd, cs):
         return "\tfprintf(stderr, \"@%d\\n\");%s" % (q[0] - 1, m.group(0))
     lines = re.sub(r"\tout\(\(long\)", mark, lines)
     open(src, "w").write(lines)
+    # undefined operations inside CONSTANT subexpressions are folded by the compilers at translation time and never reach
+    # the sanitizer; gcc's diagnostics name them (every generated function sits on one line of its own)
+    w = subprocess.run(["gcc", "-std=gnu11", "-fsyntax-only", "-Wshift-count-overflow", "-Wshift-count-negative", "-Woverflow",
+                        "-Wdiv-by-zero", "-Wshift-negative-value", "-Wshift-overflow=2", src],
+                       stdout=subprocess.PIPE, stderr=subprocess.STDOUT, text=True)
+    src_lines = lines.split("\n")
+    warned = set()
+    for m in re.finditer(r"native\.c:(\d+):\d+: warning: .*\[-W(shift-count-overflow|shift-count-negative|overflow|div-by-zero|"
+                         r"shift-negative-value|shift-overflow=?2?)\]", w.stdout):
+        fm = re.search(r"\b(f\d+_\d+)\(", src_lines[int(m.group(1)) - 1])
+        if fm:
+            warned.add(fm.group(1))
     res = []
     for comp in ("gcc", "clang"):
         exe = os.path.join(wd, "n_" + comp)
@@ -95,7 +107,8 @@ def _native_calls(prog, wd, cs):
         if p.returncode != 0 or len(vals) != q[0]:
             raise common.Broken("native fragment program failed rc=%d: %s" % (p.returncode, p.stderr[-300:]))
         res.append([None if i in bad else v for i, v in enumerate(vals)])
-    return [a if a == b else None for a, b in zip(*res)]
+    callee = re.findall(r"out\(\(long\)(f\d+_\d+)\(", lines)
+    return [a if a == b and callee[i] not in warned else None for i, (a, b) in enumerate(zip(*res))]
 
 
 def run_fragment(ck, cc, d):
